@@ -195,13 +195,29 @@ def gen_c13(rng, i):
                  "max": rng.choice([0, 0, 1, 2, idxmax // 2, idxmax - 1, idxmax, idxmax + 3])}
             configs.append(e)
         h = rng.randint(1, nh)
+        refreshed = True
         if nh > 1:
-            g.add(h=h, part=g.part())          # brings a stale handle up to date (fails, refreshes) or commits
-            if rng.random() < 0.5:
-                g.add(h=h, part=g.part())
+            if rng.random() < 0.3:
+                # the other handle commits, then this - now stale - handle asks for the expiry: it must do nothing, and
+                # in particular leave every listed table where it is
+                o = 1 + h % nh
+                g.add(h=o, part=g.part())
+                g.add(h=o, part=g.part())
+                refreshed = False
+            else:
+                g.add(h=h, part=g.part())          # brings a stale handle up to date (fails, refreshes) or commits
+                if rng.random() < 0.5:
+                    g.add(h=h, part=g.part())
         g.steps.append({"op": "compact", "h": h, "all": True, "expiry": e})
         g.steps.append({"op": "disk", "h": h, "after": "compact"})
-        g.steps.append({"op": "view", "h": h, "tag": "C13", "hasraw": False})
+        if refreshed:
+            g.steps.append({"op": "view", "h": h, "tag": "C13", "hasraw": False})
+        else:
+            o = 1 + h % nh
+            g.steps.append({"op": "view", "h": o, "tag": "C13", "hasraw": False})
+            g.steps.append({"op": "close", "h": h})
+            g.steps.append({"op": "open", "h": h})
+            g.steps.append({"op": "view", "h": h, "tag": "C13", "hasraw": False})
         if rng.random() < 0.6:
             writes(rng.randint(1, nh))
     return g.history("c13-%d" % i)
